@@ -207,6 +207,16 @@ Proof.
   vm_compute. discriminate.
 Qed.
 
+(** the same split for a redirect error VALUE whose code is no status (C12-F5) *)
+Theorem F5_refuted :
+  exists c o e, guard_F5_class (spec_class e) = true /\ guard_F2o_class c (spec_class e) = false /\
+    http_status (http_handle c o e no_hdrs) <> option_map g_status (grpc_handle c o e).
+Proof.
+  exists {| c_verbose := false; ov_authn := 0; ov_authz := 0; ov_comm := 0; ov_precond := 0; ov_norule := 0; ov_internal := 0 |},
+         any_oracle, (WrapW (Redirect 5 "http://a")).
+  split; [reflexivity|]. split; [reflexivity|]. vm_compute. discriminate.
+Qed.
+
 (** ** C12_never_success *)
 
 Lemma success_like_valid s : success_like s = true -> valid_code s = true.
